@@ -21,6 +21,7 @@ ENGINE = "net"
 LEVEL = "exploration"
 TECHNIQUE = "deterministic simulation: whole-vs-segmented differential over a seeded request-stream grammar with byte mutations"
 QUICK_RUNS = 32000
+TWIN_P = 0.08   # this share of the runs drives two independent instances of the scenario one after the other (detsim.runner._run_scenario)
 BATCH = 200
 RUN_WALL_LIMIT_S = 90   # a run takes milliseconds; the wall-clock watchdog only has to survive machine stalls under heavy shared load
 COMPONENTS = {
